@@ -295,6 +295,7 @@ var documentedMisses = map[string]string{
 	"C07-K": "value-level: PEP 440 local-version segments padded with \"0\" instead of 'more segments is greater'; no structural rule decides it",
 	"C02-K": "resource use: errors chained one by one (quadratic memory in the number of bad tuples); no structural clause of C02 bounds allocation",
 	"C13-L": "a depth counter that is not rebalanced after DecodeElement consumed the end tag: a value-level invariant of the XML token stream",
+	"C03-M": "value-level: the package name derived from a package-lock.json key loses its @scope for local packages outside node_modules; no structural rule decides which characters of the key make up the name",
 	"C02-F": "the panic is raised inside a third-party decoder on a nil argument its contract does not document",
 	"C02-G": "a hang: a deferred wait for a goroutine that blocks on an unbuffered pipe nobody reads any more (liveness, no structural clause decides it)",
 }
